@@ -37,7 +37,7 @@ ASSUMPTIONS = [
     'two-digit years are chosen inside 1969-2068 (the POSIX pivot strptime applies); patterns with letters outside the documented family are not judged',
     'header absent is declared with "header": false, with "headerRowCount": 0, or with both',
 ]
-REQUIRED_MONITORS = ['grid:patterns_loaded', 'contract:csvw_date_format:judged', 'tables:loaded', 'cells:compared',
+REQUIRED_MONITORS = ['grid:patterns_loaded', 'tables:loaded_with_options', 'contract:csvw_date_format:judged', 'tables:loaded', 'cells:compared',
                      'reach:to_pandas_read_csv_args', 'reach:process_dialect']
 REQUIRED_CLASSES = ['replaces=stale', 'replaces=alone', 'delimiter=,', 'delimiter=|', 'delimiter=tab', 'delimiter=;', 'encoding=utf-8', 'encoding=latin-1',
                     'encoding=utf-16', 'header=1', 'header=0', 'titles=1', 'bool=true|false', 'bool=Y|N', 'bool=1|0',
@@ -99,11 +99,11 @@ def write_md(d, name, columns, dialect, url='same', replaces=None):
     return path
 
 
-def load(path, mdpath):
+def load(path, mdpath, **opts):
     from tdda.serial.reader import csv2pandas
     err = io.StringIO()
     with contextlib.redirect_stderr(err), contextlib.redirect_stdout(err):
-        return csv2pandas(path, mdpath=mdpath)
+        return csv2pandas(path, mdpath=mdpath, **opts)
 
 
 def family(dtype):
@@ -184,9 +184,12 @@ def gen_table(rng, i):
     for j in range(ncols):
         t = types[(i + j) % len(types)] if j == 0 else rng.choice(types)
         vals = []
+        whole = t == 'number' and rng.random() < 0.3      # a declared number column whose values all happen to be whole
         for _ in range(n):
             if rng.random() < 0.2:
                 vals.append(None)
+            elif whole:
+                vals.append(float(rng.randint(-99, 99)))
             elif t == 'boolean':
                 vals.append(rng.random() < 0.5)
             elif t == 'integer':
@@ -217,6 +220,9 @@ def gen_table(rng, i):
                 c['titles_as'] = how
     return {'cols': cols, 'nrows': n, 'delimiter': [',', '|', '\t', ';'][i % 4], 'encoding': ['utf-8', 'latin-1', 'utf-16'][(i // 4) % 3],
             'header': (i // 2) % 2 == 0 or rng.random() < 0.5, 'bool': spell,
+            # csv2pandas's own loading options: they govern columns the metadata does NOT type; declared columns keep their declared types
+            'load_opts': rng.choice([{}, {}, {}, {'upgrade_possible_ints': True}, {'upgrade_types': False, 'upgrade_possible_ints': True},
+                                     {'upgrade_types': False}]),
             'header_decl': ['both', 'header', 'count', 'count-beside-header-true'][(i // 5) % 4],
             'url': rng.choice(['same', 'same', 'same', 'absent', 'other-existing', 'other-missing']),
             'dialect_extras': {k_: v_ for k_, v_ in (('commentPrefix', '#'), ('quoteChar', '"'), ('doubleQuote', True), ('skipRows', 0),
@@ -303,11 +309,16 @@ def run_table_case(ctx, case):
     cls = [('part=table',), ('delimiter=' + ('tab' if t['delimiter'] == '\t' else t['delimiter']),), ('encoding=' + enc,),
            ('header=%d' % t['header'],), ('bool=' + t['bool'],), ('titles=%d' % any(c.get('title') for c in t['cols']),), ('url=' + t.get('url', 'same'),), ('replaces=%s' % t.get('replaces'),),
            ('format_spellings=' + '+'.join(sorted(set(c.get('format_spelling', 'inner') for c in t['cols'] if c['type'] in ('date', 'datetime', 'boolean')))),),
+           ('load_opts=' + ('+'.join('%s=%s' % kv for kv in sorted((t.get('load_opts') or {}).items())) or 'default'),),
            ('n_bool_spellings=%d' % len(set(c.get('bool') for c in t['cols'] if c['type'] == 'boolean')),)] + [('type=' + c['type'],) for c in t['cols']]
     rec.case(case, nontrivial=nonnull, cls=cls)
     mech0 = {'header': t['header'], 'header_decl': None if t['header'] else t.get('header_decl', 'both')}
+    opts = t.get('load_opts') or {}
+    if opts:
+        mech0['load_opts'] = '+'.join('%s=%s' % kv for kv in sorted(opts.items()))
+        rec.event('tables:loaded_with_options')
     try:
-        df = load(path, mdpath)
+        df = load(path, mdpath, **opts)
     except Exception as e:
         m = common.short_tb(e)
         contracts.drain()
@@ -328,8 +339,9 @@ def run_table_case(ctx, case):
         got_fam = family(df[c['name']].dtype)
         allnull = all(v is None for v in c['values'])
         if got_fam != want_fam and not (allnull and want_fam in ('datetime',)):
-            rec.violation('declared_type', {'case': case, 'mech': {'declared': c['type'], 'loaded_family': got_fam, 'all_null': allnull,
-                                                                   'has_format': bool(c['format'])},
+            rec.violation('declared_type', {'case': case, 'mech': dict({'declared': c['type'], 'loaded_family': got_fam, 'all_null': allnull,
+                                                                        'has_format': bool(c['format'])},
+                                                                       **({'load_opts': mech0['load_opts']} if opts else {})),
                                             'facts': {'column': c['name'], 'dtype': str(df[c['name']].dtype)}})
             continue
         for r in range(t['nrows']):
